@@ -864,3 +864,11 @@ CORPUS += [
 CORPUS += [
     V("C08", "mdpp-quota-not-refreshed-again", "rl4co/envs/eda/mdpp/env.py", "        self.max_decaps = self.generator.max_decaps\n", "", "C08.e"),
 ]
+
+_CG = R + "cvrp/generator.py"
+CORPUS += [
+    V("C18", "cvrp-demand-shift-two", _CG, "demand = (demand.int() + 1).float()", "demand = (demand.int() + 2).float()", "C18.g"),
+    V("C18", "cvrp-demand-sampler-bounds-unshifted", _CG, '"demand", demand_distribution, min_demand - 1, max_demand - 1, **kwargs', '"demand", demand_distribution, min_demand, max_demand, **kwargs', "C18.g"),
+    V("C18", "cvrp-demand-not-normalised", _CG, '"demand": demand / self.capacity,', '"demand": demand,', "C18.g"),
+    V("C18", "eq-cvrp-demand-shift-reordered", _CG, "demand = (demand.int() + 1).float()", "demand = (1 + demand.int()).float()", None),
+]
